@@ -16,7 +16,7 @@ def paths(pid, n):
     wt = "/tmp/seed-%s/wt" % pid
     try:
         import re
-        m = re.search(r"(/tmp/seed2?-C\d+/wt)", open(src + "/demo.py").read())
+        m = re.search(r"(/tmp/seed\d?-[A-Z0-9]+/wt)", open(src + "/demo.py").read())
         if m:
             wt = m.group(1)
     except OSError:
